@@ -24,6 +24,20 @@ GLOBAL = "metrics::recorder::GLOBAL_RECORDER"
 NOOP = "metrics::recorder::NOOP_RECORDER"
 
 
+def resolve_statics(m):
+    """LOCAL / GLOBAL / NOOP by role (type), so moving or renaming the private statics is invisible."""
+    global LOCAL, GLOBAL, NOOP
+    raw = getattr(m, "raw_fns", None) or m.fns
+    for f in raw:
+        sty = f.j.get("sty") or ""
+        if f.dk == "Static" and sty.endswith("noop::NoopRecorder"):
+            NOOP = f.path
+        elif f.dk == "Static" and sty.endswith("cell::RecorderOnceCell"):
+            GLOBAL = f.path
+        elif f.dk == "Static" and f.path.endswith("__RUST_STD_INTERNAL_VAL") and "NonNull<(dyn metrics::recorder::Recorder" in sty and "::{constant#0}" in f.path:
+            LOCAL = f.path.split("::{constant#0}")[0]
+
+
 def is_guard_ctor(f):
     """role: the private constructor(s) of the scoped-installation guard"""
     return f.dk in ("Fn", "AssocFn") and not f.j.get("exported") and not f.j.get("impl_trait") and "recorder::LocalRecorderGuard" in f.j.get("sig", "").split("->")[-1]
@@ -67,6 +81,7 @@ def with_recorder_leaves(wr):
     `if let .. { f(a) } else { f(b) }` and `let r = match .. { a, b }; f(r)` are the same three leaves."""
     from facts import alternatives
 
+    resolve_statics(wr.crate)
     leaves = []  # (callsite, def-bb, payload-sym)
     n_calls = 0
     for c in nonforeign_calls(wr):
@@ -134,6 +149,7 @@ def run(ctx):
     chk = ctx.check
     m = ctx.crate("metrics")
     crate_stats(chk, m)
+    resolve_statics(m)
     chk.rule("C01.a", "ORD+provenance precedence: in with_recorder the user closure is called on exactly three leaves: Some(local) -> that payload; else Some(global via try_load) -> that payload; else the static NOOP_RECORDER; try_load only on the no-local edge", floor=4)
     chk.rule("C01.b", "OWN+MPT save/restore: LocalRecorderGuard::new stores the value returned by Cell::replace(Some(ptr)) into prev_recorder; Drop replaces with self.prev_recorder; only new/drop/with_recorder touch LOCAL_RECORDER; in with_local_recorder the guard is dropped after f() on the normal path and on f()'s unwind edge, never before", floor=6)
     chk.rule("C01.c", "TYPE+item facts thread confinement: LOCAL_RECORDER is a thread_local LocalKey<Cell<Option<NonNull<dyn Recorder>>>>; the guard is !Send (E0277 witness); local installation accepts non-Sync non-'static recorders", floor=4)
@@ -210,7 +226,7 @@ def run(ctx):
     # who may touch LOCAL_RECORDER
     users = set()
     for f in m.fns:
-        if f.file.endswith("thread/local.rs") or "LOCAL_RECORDER" in f.path:
+        if f.file.endswith("thread/local.rs") or f.path.startswith(LOCAL):
             continue
         if _stmts_mention(f, LOCAL):
             root = f
